@@ -172,7 +172,7 @@ def run(ctx):
 
     ctx.cov.update({"round_trip_histories": n_rt, "class_product_requests": n_rob, "class_product_max_deviations": 3 if reqs3 else 2,
                     "logging_prefixes": len(profiles), "truncation_lengths": n_tr, "random_corruptions": n_rand,
-                    "junk_files": n_junk, "exhaustive": True})
+                    "junk_files": n_junk, "damaged_files_printed": n_rob + n_tr + n_rand + n_junk, "exhaustive": True})
     ctx.assumptions += [
         "memory errors are observed by ASan/UBSan in a forked child; word indexes beyond the ring's double mapping by a 17 GiB PROT_NONE tail (interposed mmap)",
         "the harness runs in a private mount namespace (/dev/shm is a fresh tmpfs): the leftover census and the fixed name qb-create_from_file are per harness; two concurrent printers in one namespace are outside the property",
